@@ -121,10 +121,15 @@ def search(limit_n=3, budget=200000):
 
 
 def replay(eng, ob, model, seed):
-    w, tried = search()
+    import os
+    thorough = os.environ.get("VERIF_TIER") == "thorough"
+    # thorough: also every DAG on 4 targets (the enumeration order reaches all 4-target graph shapes with the first
+    # backend states; capped at 3 million candidates)
+    w, tried = search(4, 3000000) if thorough else search()
     if w is None:
         return {"failed_on_real_code": False, "candidates_tried": tried,
-                "bound": "<=3 targets, all DAGs, all backend statuses, all staleness flags, all endpoint sets"}
+                "bound": ("<=4 targets (capped at 3e6 candidates)" if thorough else "<=3 targets") +
+                         ", all DAGs, all backend statuses, all staleness flags, all endpoint sets"}
     return {"failed_on_real_code": True, "input": w, "observed": w["problems"], "candidates_tried": tried,
             "call": "gwf.scheduling.schedule(endpoints, graph, fs, spec_hashes, status_func, submit_func)",
             "witness_class": "schedule-small-dag"}
